@@ -104,6 +104,12 @@ func (p *Parser) parseHeader(data []byte) (header *parser.PacketHeader, buf []by
 			}
 		}
 
+		// A namespace must be terminated with a comma.
+		if i == len(data) {
+			err = errMalformedPacket
+			return
+		}
+
 		header.Namespace = string(data[:i])
 		data = data[i+1:]
 	} else {
